@@ -366,7 +366,10 @@ def tolerated_set(ctx, rule, key, fn, leaves, is_result, continues, returns_err_
                 desc = "Err(%s)" % rdiscr.get(c1[1])
             else:
                 desc = "Err(not %s)" % sorted(rdiscr.get(x) for x in c1[1])
-        if continues(lf):
+        cont = continues(lf)
+        if cont is None:
+            continue  # leaves the parser for an unrelated reason (e.g. a checked_add guard)
+        if cont:
             tolerated.add(desc)
         else:
             fatal.add(desc)
